@@ -98,6 +98,21 @@ CLAIMED = {
              "(C01), the partitioning renderer, lli. F5 (stale intrinsic cache across modules) was found here and fixed.",
         technique="Lean 4 proof (order-independent refinement of the splice loop) + partition/permutation correspondence",
         design="§4 C12"),
+    "C13": dict(
+        text="Lean theorems: every code the compiler can emit is in the published catalogue except the eight codes of "
+             "finding F8 — proved by kernel evaluation over tables REGENERATED on every run from error.rs and docs/errors.md "
+             "(`codes_documented`), so a new undocumented code or a removed section breaks the proof; the diagnostic order is a "
+             "stable key sort: a permutation in key order (`sorted_perm`, `sorted_ordered`), independent of arrival order when "
+             "keys are distinct (`sorted_perm_invariant`), stable otherwise (`sorted_stable`). Every diagnostic of thousands "
+             "of failing inputs is checked for catalogue membership, a primary location inside a named input file and on the "
+             "reported line, and rendering in all colour/charset configurations; samples are re-run in fresh processes and "
+             "must give identical diagnostics and IR text (per module and linked). Partial: span arithmetic of the lexer/parser "
+             "is checked through the C14 reference lexer and this correspondence, not by a theorem; ariadne is trusted.",
+        note="Trusted: Lean kernel, the regex translator that extracts the two code tables, the harness reading the primary "
+             "location through the cfg(penne_verif) hook, ariadne. F4 (CRLF span drift) and F6 (HashSet splice order) were "
+             "found and fixed; F8 (undocumented codes) is a known finding.",
+        technique="Lean 4 proof over regenerated tables (translator) + sort refinement + diagnostic-location correspondence",
+        design="§4 C13"),
     "C14": dict(
         text="Lean reference lexer (alpha's lexer arm by arm) with theorems: every fixed spelling (punctuation, keywords, type "
              "names: complete table) and every integer literal spelling (decimal / 0x / 0b, any `_` separator placement, any "
